@@ -429,13 +429,13 @@ def cases(tier, rng):
     if thorough:
         sets = allsets
     else:
-        sets = rng.sample(allsets, 52)
+        sets = rng.sample(allsets, 64)
     for mults in sets:
         yield "zoomify", _one_case(rng, list(mults), thorough)
-    for _ in range(30 if thorough else 8):
+    for _ in range(60 if thorough else 24):
         yield "zoomify", _one_case(rng, rng.sample(range(1, 13), rng.randint(1, 3)), thorough, nbases=rng.choice([2, 3]), bad=False,
                                    variable=False)
-    for _ in range(12 if thorough else 4):
+    for _ in range(24 if thorough else 8):
         yield "zoomify", _one_case(rng, rng.sample(range(2, 13), rng.randint(1, 3)), thorough, variable=True, bad=False)
     # CLI spellings --------------------------------------------------------------------------------
     big = {"width": 1, "bins": _fixed_bins([1500, 700], 1), "symm": True,
